@@ -40,6 +40,16 @@ Theorem c40_queries_agree_across_restart : forall (g : block) (ops : list op),
 Proof. exact queries_agree_restart. Qed.
 Print Assumptions c40_queries_agree_across_restart.
 
+(** GetHeaderByHeight (GetBlockHash, then GetHeaderByHash) also returns the committed header - in
+    particular when a different header for that height had been received ahead through AddHeader. *)
+Theorem c40_header_by_height_agrees : forall (g : block) (ops : list op),
+  history_ok g ops ->
+  exists s, run_ledger g ops = Some s /\
+    forall cb i b, nth_error (g :: committed 0 ops) i = Some b ->
+      get_header_by_height cb s (N.of_nat i) = Some (b_hdr b).
+Proof. exact header_by_height_agrees. Qed.
+Print Assumptions c40_header_by_height_agrees.
+
 (** For a plain chain: blocks of heights 1, 2, ... added one after the other are exactly the committed
     chain. *)
 Theorem c40_chain_is_committed : forall (blocks : list block),
